@@ -4,6 +4,7 @@ import BpProofs.SpecCore
 import BpProofs.SpecPack
 import BpProofs.SpecEnc
 import BpProofs.SpecPerm2
+import BpProofs.SpecPerm3
 /-
   C02 — wire interoperability with the reference protobuf implementation.
 
@@ -68,6 +69,39 @@ theorem load_perm_classes (S : Schema) (rec : Loader) (d : MsgD) (pfs pfs' : Lis
     (h : foldFields S rec d st pfs = .ok st1) :
     ∃ st2, foldFields S rec d st pfs' = .ok st2 ∧ core st2 = core st1 :=
   foldFields_perm S rec d pfs pfs' st st1 how hsame h
+
+
+/-- **any field order**, in the words of the property: ANY permutation of the records that
+    keeps the relative order of the records with the same field number and of the records
+    belonging to members of the same oneof group gives the same decoded field values, oneof
+    selection and presence.  (This is all the reordering the wire format itself permits without
+    changing the meaning: records of one repeated field, occurrences of one singular field and
+    members of one oneof are order-sensitive by the specification.)  The hypothesis `hperm`
+    is not even needed by the proof: the two order conditions already determine the known
+    records; unknown records may be permuted freely, added or dropped. -/
+theorem load_perm (S : Schema) (rec : Loader) (d : MsgD) (pfs pfs' : List PField) (st st1 : MState)
+    (how : st.onWire = true) (_hperm : pfs.Perm pfs')
+    (hnum : ∀ n, pfs.filter (fun pf => pf.num == n) = pfs'.filter (fun pf => pf.num == n))
+    (hgrp : ∀ g, pfs.filter (inGroup d g) = pfs'.filter (inGroup d g))
+    (h : foldFields S rec d st pfs = .ok st1) :
+    ∃ st2, foldFields S rec d st pfs' = .ok st2 ∧ core st2 = core st1 :=
+  foldFields_perm S rec d pfs pfs' st st1 how (classes_of_numbers d pfs pfs' hnum hgrp) h
+
+/-- byte-level form: the records may be any records the framing produces; re-assembled in the
+    permuted order they are framed into exactly the permuted list (`loadFields_join`), so the
+    permuted BYTES decode to the same message -/
+theorem load_perm_bytes (S : Schema) (fuel : Nat) (d : MsgD) (bs : Bytes) (pfs pfs' : List PField) (st st1 : MState)
+    (hp : loadFields bs = .ok pfs) (hperm : pfs.Perm pfs')
+    (hnum : ∀ n, pfs.filter (fun pf => pf.num == n) = pfs'.filter (fun pf => pf.num == n))
+    (hgrp : ∀ g, pfs.filter (inGroup d g) = pfs'.filter (inGroup d g))
+    (h : loadInto S (fuel + 1) d st bs = .ok st1) :
+    ∃ st2, loadInto S (fuel + 1) d st (joinRaw pfs') = .ok st2 ∧ core st2 = core st1 := by
+  have hparsed : ∀ pf ∈ pfs', Parsed pf := fun pf hpf => loadFields_parsed bs pfs hp pf (hperm.mem_iff.mpr hpf)
+  rw [loadInto_succ, hp] at h
+  simp only [bind_ok] at h
+  rw [loadInto_succ, loadFields_join pfs' hparsed]
+  simp only [bind_ok]
+  exact load_perm S _ d pfs pfs' _ st1 rfl hperm hnum hgrp h
 
 /-- the two-record case (the commutation lemma): records of different classes commute -/
 theorem load_swap (S : Schema) (rec : Loader) (d : MsgD) (before after : List PField) (p q : PField) (st st1 : MState)
@@ -266,5 +300,30 @@ theorem load_last_wins_oneof_value (S : Schema) (rec : Loader) (d : MsgD) (st st
     (hv : decodeValue S rec f pf = .ok v)
     (h : foldFields S rec d st (earlier ++ [pf]) = .ok st') : st'.slots.getD idx .ph = v :=
   load_last_wins S rec d st st' earlier pf idx f v hw ht hrep hm hmsg hv h
+
+
+/-! ### non-vacuity: concrete instances, evaluated on the model (`decide`) -/
+
+def T : Schema := [{ fields := [{ name := "a", num := 1, ty := .int32 },
+                                 { name := "r", num := 2, ty := .sint32, repeated := true },
+                                 { name := "x", num := 3, ty := .bytes, group := some 0 },
+                                 { name := "y", num := 4, ty := .int64, group := some 0 }], nGroups := 1 }]
+
+example : NoRepeatedOptional T[0] := by decide
+example : IsRepScalar { name := "r", num := 2, ty := .sint32, repeated := true } := by decide
+-- D11's witness: 1, 2 unpacked + packed [3, 4] + 5 unpacked decodes like one packed record of five
+example : (parse T 0 [0x10, 0x02, 0x10, 0x04, 0x12, 0x02, 0x06, 0x08, 0x10, 0x0a]).bind (dumpVal T)
+    = .ok [0x12, 0x05, 0x02, 0x04, 0x06, 0x08, 0x0a] := by decide
+-- padded tag (3 bytes), padded value (4 bytes): same message as the minimal encoding 08 05
+example : (parse T 0 [0x88, 0x80, 0x00, 0x85, 0x80, 0x80, 0x00]).bind (dumpVal T) = .ok [0x08, 0x05] := by decide
+-- last wins: a = 7 then a = 5; oneof: x = b"A" then y = 9 leaves y selected and x unset
+example : (parse T 0 [0x08, 0x07, 0x08, 0x05]).bind (dumpVal T) = .ok [0x08, 0x05] := by decide
+example : (parse T 0 [0x1a, 0x01, 0x41, 0x20, 0x09]).bind (dumpVal T) = .ok [0x20, 0x09] := by decide
+-- order: (y = 9, a = 5) decodes like (a = 5, y = 9); an unknown record (#9) in between changes nothing known
+example : (parse T 0 [0x20, 0x09, 0x08, 0x05]).bind (dumpVal T) = .ok [0x08, 0x05, 0x20, 0x09] := by decide
+example : (parse T 0 [0x20, 0x09, 0x48, 0x01, 0x08, 0x05]).bind (dumpVal T) = .ok [0x08, 0x05, 0x20, 0x09, 0x48, 0x01] := by decide
+-- the spec-level parser accepts padded varints and yields the same records
+example : Spec.parse [0x88, 0x80, 0x00, 0x85, 0x80, 0x80, 0x00] = Spec.parse [0x08, 0x05] := by decide
+example : (Spec.decodeBytes T 0 [0x1a, 0x01, 0x41, 0x20, 0x09]).map (·.sel) = some [some 3] := by decide
 
 end Bp.C02
